@@ -154,6 +154,11 @@ extern int cs_real_scalars;
    `other' as unknowns): for sets that are determined only together with
    these ties */
 extern int cs_ident_priors;
+/* system impedance cs_build declares with vnacal_new_set_z0 (0: default) */
+extern cs_c cs_system_z0;
+/* set by cs_apply: the result object's z0 differs from vnacal_get_z0 */
+extern int cs_apply_z0_mismatch;
+extern cs_c cs_apply_z0_expected, cs_apply_z0_got;
 extern int cs_make_params(vnacal_t *vcp, cs_scenario *sc);
 extern void cs_delete_params(vnacal_t *vcp, cs_scenario *sc);
 
